@@ -97,7 +97,7 @@ def gen_history(seed, tier="quick", zoo_filter=None, faults_on=True):
     # A history is a sequence of visits: set a point, (fault), converge, then a burst of linearisations and
     # excursions - the shape of an optimiser's life, and the shape in which stale state is consumed.
     ops = []
-    n_visits = rng.randint(2, 5)
+    n_visits = rng.randint(2, 5) if tier != "thorough" else rng.choice([rng.randint(2, 5), rng.randint(4, 12)])
     prev = None
     visited = []
     for v in range(n_visits):
@@ -827,8 +827,9 @@ def coverage(results, tier):
     samples = [{"seed": r["seed"], "spec": r["spec"], "ops": r["sample"]} for r in results[:3]]
     return {
         "distinct_nontrivial": len(abstract),
-        "rule": "one case = one seeded history (zoo configuration, derivative mode, 2-4 admissible points, 4-17 ops "
-                "from {set_point,run_model,linearize,compute_totals,check_partials,check_totals,scribble,abort,run_driver}) "
+        "rule": "one case = one seeded history (zoo configuration incl. surface-option combination, derivative mode, 2-4 admissible "
+                "points drawn independently / as siblings / nearby, 2-5 visits (up to 12 in thorough) of set_point,[scribble],[abort],"
+                "run_model,[run_driver], burst of {linearize,compute_totals,check_partials,check_totals}) "
                 "on one live Problem, compared op by op with a fresh Problem evaluated once; distinct = distinct hash of "
                 "(spec, abstract op sequence with point indices / fault kinds); non-trivial = >=2 completed run_model at "
                 ">=2 distinct points and >=1 linearisation",
